@@ -32,7 +32,7 @@ impl Property for C18 {
     fn components_stubbed(&self) -> Vec<&'static str> { vec!["no network: digests and deltas are handed over in memory, as the repo's routine does"] }
     fn assumptions(&self) -> Vec<&'static str> { vec!["'equal digests => equal states' is checked up to 64-bit hash collision, which cannot occur by chance at these sizes; 'equal states => equal digests' is exact"] }
     fn required_probes(&self) -> Vec<&'static str> { vec!["bucket_with_2plus_keys", "equal_pair_checked", "unequal_pair_checked", "sync_needed_multiple_rounds"] }
-    fn runs(&self, tier: Tier) -> u64 { match tier { Tier::Quick => 1500, Tier::Thorough => 60_000 } }
+    fn runs(&self, tier: Tier) -> u64 { match tier { Tier::Quick => 25000, Tier::Thorough => 1000000 } }
 
     fn run(&self, src: &mut Src, ctx: &RunCtx) -> RunReport {
         let mut rep = RunReport::default();
